@@ -155,3 +155,28 @@ def _(c):
     c.ensures(keep, name="keeps_every_object_the_test_admits")
     c.ensures("result is None or result is value or result is pat", name="never_wider_than_the_original_or_the_pattern")
     c.ensures("implies(not positive and self.positive_only, result is value)", name="positive_only_predicates_do_not_narrow_the_negative_branch")
+
+
+@contract("pyanalyze.patma.LenPredicate.__call__", props=["C02", "C01"])
+def _(c):
+    c.param("value", "obj:Value")
+    c.param("positive", "bool")
+    c.returns("val")
+    c.fieldspec("expected_length", "int")
+    c.fieldspec("has_star", "bool")
+    c.callee("len_of_value", lambda k: (k.param("v", "val"), k.returns("val"), setattr(k, "functional", True), setattr(k, "fn_name", "len_of_value")))
+    c.callee("unannotate", lambda k: (k.param("v", "val"), k.returns("val"), setattr(k, "functional", True), setattr(k, "fn_name", "unannotate")))
+    c.callee("cleaned.get_generic_arg_for_type", lambda k: (k.param("self", "val"), k.param("t", "val"), k.param("ctx", "val"), k.param("i", "val"), k.returns("val")))
+    c.callee("SequenceValue", lambda k: (k.param("t", "val"), k.param("members", "val"), k.returns("obj:SequenceValue")))
+    c.loop(0, invariant="True")
+    L = "len_of_value(value)"
+    known = f"(isa({L}, KnownValue) and isinstance({L}.val, int))"
+    n = f"unI_({L}.val)"
+    fits = f"ite(self.has_star, {n} >= self.expected_length, {n} == self.expected_length)"
+    # the C02 statement for a value all of whose instances have the statically known length n: it is kept exactly when
+    # an instance of that length takes the branch ([a, *rest] matches lengths >= the number of sub-patterns)
+    c.ensures(f"implies({known} and positive == {fits}, result is value)", name="a_value_whose_known_length_takes_the_branch_is_kept")
+    c.ensures(f"implies({known} and positive != {fits}, result is None)", name="a_value_whose_known_length_cannot_take_the_branch_is_dropped")
+    c.ensures(f"implies(not {known} and (self.has_star or not (isa(unannotate(value), TypedValue) and unannotate(value).typ is tuple)), result is value)", name="unknown_length_is_kept")
+    c.ensures(f"implies(not {known}, result is not None)", name="unknown_length_is_never_dropped")
+    c.assume("len_of_value(v) = KnownValue(n) only when every instance of v has length n (value.len_of_value, not under contract)")
